@@ -29,6 +29,19 @@ def _stmt(n):
     return n
 
 
+def _waits_with_liveness(gr) -> bool:
+    """get_result waits in `while not <conn>.poll(timeout)` and leaves the loop when the worker is not alive:
+    it does not depend on the pipe reporting EOF."""
+    for lp in own_nodes(gr):
+        if isinstance(lp, ast.While) and isinstance(lp.test, ast.UnaryOp) and isinstance(lp.test.op, ast.Not) and isinstance(lp.test.operand, ast.Call) and last_attr(lp.test.operand) == "poll" and (lp.test.operand.args or lp.test.operand.keywords):
+            for i in ast.walk(lp):
+                if isinstance(i, ast.If) and any(isinstance(x, (ast.Raise, ast.Return, ast.Break)) for x in ast.walk(i)):
+                    for lit in _flat_and(i.test):
+                        if isinstance(lit, ast.UnaryOp) and isinstance(lit.op, ast.Not) and isinstance(lit.operand, ast.Call) and last_attr(lit.operand) == "is_alive":
+                            return True
+    return False
+
+
 def _flat_and(test):
     if isinstance(test, ast.BoolOp) and isinstance(test.op, ast.And):
         return [x for v in test.values for x in _flat_and(v)]
@@ -37,7 +50,7 @@ def _flat_and(test):
 
 def check(ctx) -> None:
     repo = ctx.repo
-    ctx.rule("C33.eof", "the parent's copy of the pipe's sending end is closed after process.start() on every path and never escapes into an attribute / container (else recv never sees EOF when the worker dies)", floor=4)
+    ctx.rule("C33.eof", "when get_result relies on EOF (no liveness-watching wait): the parent's copy of the pipe's sending end is closed after process.start() on every path and never escapes into an attribute / container; always: the receiving end is stored and the worker gets (task, sending end)", floor=4)
     ctx.rule("C33.variant", "every path of _restart to _start_worker passes _adjust_search_time_after_crash(elapsed since start) and the `maximum_search_time <= 0` abort", floor=4)
     ctx.rule("C33.decrease", "ABSINT over a boundary partition: for budget > 0 and elapsed > 0 the adjusted budget is an int, >= 0 and strictly smaller than the old one", floor=1)
     ctx.rule("C33.recurse", "get_result: recv failures of any kind enter the restart path; recursion only after _restart() returned true; a failed restart returns an ERROR result", floor=4)
@@ -51,7 +64,10 @@ def check(ctx) -> None:
     if len(pipe) != 1 or not isinstance(pipe[0].targets[0], ast.Tuple):
         raise AnalysisError("_start_worker: mp.Pipe() unpacking not found")
     dup = next((k.value for k in pipe[0].value.keywords if k.arg == "duplex"), None)
-    ctx.check("C33.eof", pipe[0], dup is not None and norm(dup) == "False", "the result pipe is duplex: the master's own end is also a writer and recv never sees EOF", what="one-way pipe")
+    # a master that watches the worker's liveness does not need EOF; the writer-side discipline is then not a condition of the property
+    needs_eof = not _waits_with_liveness(repo.func(MA, "RunningTask.get_result"))
+    ctx.extra["master_relies_on_eof"] = needs_eof
+    ctx.check("C33.eof", pipe[0], (dup is not None and norm(dup) == "False") or not needs_eof, "the result pipe is duplex: the master's own end is also a writer and recv never sees EOF", what="one-way pipe")
     recv_name, send_name = (norm(e) for e in pipe[0].targets[0].elts)
     cfg = CFG(sw)
     starts = [n for n in cfg.nodes if n.kind == "stmt" and n.stmt is not None and isinstance(n.stmt, ast.Expr) and isinstance(n.stmt.value, ast.Call) and last_attr(n.stmt.value) == "start"]
@@ -65,7 +81,7 @@ def check(ctx) -> None:
         before = cfg.path([cfg.entry], [s.id for s in starts], avoid_nodes=closes)
         ok = p is None and before is not None
     ctx.paths += 2
-    ctx.check("C33.eof", starts[0].stmt if starts else sw, ok, f"the parent's `{send_name}` is not closed after process.start() on every path: with a writer left open in the master, recv() blocks forever when the worker dies without sending a result", what="parent closes its sending end after start", path=cfg.describe_path(p) if p else [])
+    ctx.check("C33.eof", starts[0].stmt if starts else sw, ok or not needs_eof, f"the parent's `{send_name}` is not closed after process.start() on every path: with a writer left open in the master, recv() blocks forever when the worker dies without sending a result", what="parent closes its sending end after start", path=cfg.describe_path(p) if p else [])
     # escape analysis: the sending end may only be passed to mp.Process(args=...) and closed
     escapes = []
     for n in own_nodes(sw):
@@ -83,7 +99,7 @@ def check(ctx) -> None:
                 anc = parent(anc)
             if not okp:
                 escapes.append(_stmt(n))
-    ctx.check("C33.eof", escapes[0] if escapes else sw, not escapes, f"the sending end `{send_name}` escapes `{norm(escapes[0])[:80] if escapes else ''}`: a stored reference keeps a writer of the pipe alive in the master", what="sending end only handed to the worker process", stmt="[escape]")
+    ctx.check("C33.eof", escapes[0] if escapes else sw, not escapes or not needs_eof, f"the sending end `{send_name}` escapes `{norm(escapes[0])[:80] if escapes else ''}`: a stored reference keeps a writer of the pipe alive in the master", what="sending end only handed to the worker process", stmt="[escape]")
     # the receiving end is the one stored
     st = [n for n in own_nodes(sw) if isinstance(n, ast.Assign) and norm(n.targets[0]) == "self._receiving_connection"]
     ctx.check("C33.eof", st[0] if st else sw, len(st) == 1 and norm(st[0].value) == recv_name, "self._receiving_connection is not the receiving end of the pipe", what="receiving end stored", stmt="[recv]")
